@@ -561,8 +561,13 @@ func (in *Interp) conv(dst, src types.Type, x Value) Value {
 	case dk == kString && (sk == kInt || sk == kUint):
 		// string(rune)
 		if xt, ok := x.(*Term); ok {
-			v := in.concretize(xt, "string(rune)")
-			return string(rune(sext(v, sw)))
+			if sw != 32 {
+				xt = SExt(xt, 32)
+				if sk == kUint {
+					xt = ZExt(x.(*Term), 32)
+				}
+			}
+			return mkStr(in.encodeRune(nil, simpInt(kInt, 32, xt)))
 		}
 		return string(rune(int64(rawBits(x))))
 	case dk == kString && sk == kString:
@@ -577,15 +582,11 @@ func (in *Interp) conv(dst, src types.Type, x Value) Value {
 				return mkStr(xs)
 			}
 			// []rune
-			var out []rune
+			var out []Value
 			for _, r := range xs {
-				rv, ok := r.(int64)
-				if !ok {
-					rv = sext(in.concretize(r.(*Term), "string([]rune)"), 32)
-				}
-				out = append(out, rune(rv))
+				out = in.encodeRune(out, r)
 			}
-			return string(out)
+			return mkStr(out)
 		}
 	}
 	if sl, ok := ud.(*types.Slice); ok && sk == kString {
@@ -598,7 +599,16 @@ func (in *Interp) conv(dst, src types.Type, x Value) Value {
 		}
 		s, ok := x.(string)
 		if !ok {
-			in.unsupported("[]rune(symbolic string)")
+			// decode rune by rune with the comparison-only model (forks on the encoded length)
+			fn := in.modelFunc("verifModel_utf8_DecodeRuneInString")
+			b := strBytes(x)
+			var out []Value
+			for i := 0; i < len(b); {
+				res := in.call(nil, fn, []Value{mkStr(b[i:])}).(Tuple)
+				out = append(out, res[0])
+				i += in.concInt(res[1], "rune width")
+			}
+			return out
 		}
 		var out []Value
 		for _, r := range s {
@@ -620,4 +630,25 @@ func (in *Interp) conv(dst, src types.Type, x Value) Value {
 		return x
 	}
 	panic(fmt.Sprintf("conv: unhandled %v <- %v (%T)", dst, src, x))
+}
+
+
+func (in *Interp) modelFunc(name string) *ssaFunc {
+	f := in.mainPkg.Func(name)
+	if f == nil {
+		in.unsupported("model " + name + " is not available in the harness package")
+	}
+	return f
+}
+
+// encodeRune appends the UTF-8 encoding of r (concrete or symbolic) to out.
+func (in *Interp) encodeRune(out []Value, r Value) []Value {
+	if rv, ok := r.(int64); ok {
+		for _, b := range []byte(string(rune(rv))) {
+			out = append(out, uint64(b))
+		}
+		return out
+	}
+	res := in.call(nil, in.modelFunc("verifModel_utf8_AppendRune"), []Value{[]Value(nil), r}).([]Value)
+	return append(out, res...)
 }
